@@ -137,6 +137,7 @@ more("C11", "(eighth round) js.NewArrayBuffer adds the byteOffset of the backing
 more("C12", "(eighth round) the directive-import table is consulted with the import path.")
 more("C13", "(eighth round) nosync.Map reads its map with comma-ok only.")
 more("C13", "(eighth round) atomic.Value.CompareAndSwap compares the types of old and new only when old is not nil.")
+more("C13", "(eighth round) every panic message of the sync/atomic overlay is a message of the original package.")
 more("C18", "(eighth round) isStd answers true only from the located package's Goroot flag.")
 more("C18", "(eighth round) the --tags value is split at commas as well as white space in every command.")
 more("C15", "(eighth round) $ifaceKeyFor rejects unhashable dynamic types with a run-time error before calling keyFor.")
